@@ -9,3 +9,6 @@ claim("C06", "exploration", RM + ": three-way differential of both codecs agains
 claim("C08", "fault_enumeration", RM + ": systematic mutation of valid encodings fed to every decoder, with recover(), child-process journal for fatal errors, allocation meter and counting reader",
       "Every truncation point, every 4-byte window replaced by 7 hostile values, every type byte and random bodies, for each of 30 packet kinds, through ~25 decoding entry points of both codecs; frame readers with declared length x available bytes tables. Verdict: no panic/fatal error, allocation <= 64*len+1MiB, refused frames consume no body bytes. Held on ~200k (quick) decodes.",
       "Affine allocation bound; single-goroutine allocation metering via runtime/metrics; RLIMIT_AS=3GiB children.")
+claim("C09", "exploration", RM + ": differential against a writable twin server with a tree snapshot before/after every request",
+      "Exhaustive request tables (64 open-flag sets x 6 targets x 2, 16 attr-flag subsets, every request type and extension name, handle sequences; absolute and relative paths) plus seeded sequences; after each request the served tree must be unchanged, requests that changed the writable twin must have been answered PERMISSION_DENIED and reading requests must be answered like the twin answers them. Held on ~4k (quick) requests.",
+      "Runs as root on the sandbox file system; the writable Server is the reference for 'modifying' and 'keeps working'; atime excluded.")
